@@ -399,3 +399,16 @@ def rename_map(rng, params):
     if kind == "chain" and len(names) >= 2:
         return {names[i]: (names[i + 1] if i + 1 < len(names) else "?fresh") for i in range(len(names))}
     return {n: f"?m{i}" for i, n in enumerate(names)}
+
+
+def edit_literal(rng, params, tree):
+    """a literal over the action's parameters that does not occur in its precondition (to be added and removed)"""
+    g = Gen(rng, params, with_consts=False)
+    pre_text = layout_flat(tree["c"][-1])
+    for _ in range(20):
+        a = g.atom()
+        pos = rng.random() < 0.6
+        txt = layout_flat(a)
+        if txt not in pre_text:
+            return [pos, a["c"][0]["v"], [x["v"] for x in a["c"][1:]]]
+    return None
